@@ -47,6 +47,8 @@ type TItem struct {
 	Hidden bool // visibility: hidden (TSpan)
 	Vis    int  // visibility set on the span: 0 not set (or Hidden), 1 hidden, 2 visible, 3 collapse
 	Rel    bool // position: relative (TSpan)
+	// horizontal padding / border / margin of the inline box (TSpan): extra declarations, "" = none
+	Edge string
 }
 
 var VisNames = []string{"", "hidden", "visible", "collapse"}
@@ -66,6 +68,9 @@ type TPara struct {
 	Anc   []int  // ids of the enclosing paragraphs, outermost first
 	Role  string // root li cell inline-block float abspos block-in-inline
 	Block bool   // float / abspos that is a sibling of blocks (not part of a line)
+	// Block only: the container (div / ul) it is a child of has break-inside: avoid / one of the
+	// containers around that one has
+	AvoidParent, AvoidAnc bool
 }
 
 const (
@@ -113,6 +118,51 @@ type tgen struct {
 	vis    bool // visibility is set on many boxes, hidden ancestors with visible descendants
 	decor  bool // containers of blocks carry bottom (and top) padding / borders of different widths
 	pagec  bool // the flow contains generated text that depends on the number of pages
+	edges  bool // inline boxes carry horizontal padding / borders / margins, often wider than a word
+}
+
+// horizontal edges of an inline box: start and / or end padding, border, margin, from a few
+// pixels to most of a line (the text before the end of the box can fit on the line while the
+// text followed by the end spacing does not: splitInlineBox then splits the last child again)
+func (g *tgen) spanEdge() string {
+	r := g.r
+	den := 10
+	if g.edges {
+		den = 2
+	}
+	if !r.Chance(1, den) {
+		return ""
+	}
+	g.tags["span-edges"] = true
+	amount := func() int {
+		if r.Chance(1, 3) {
+			return vlib.Pick(r, []int{2, 5, 10})
+		}
+		// up to most of the line
+		return r.Range(1, 9) * g.d.PageW / 10
+	}
+	var st []string
+	// the end side mostly (the side that makes the last child be split again)
+	for _, side := range []string{"right", "left"} {
+		p := 3
+		if side == "left" {
+			p = 1
+		}
+		if !r.Chance(p, 4) {
+			continue
+		}
+		switch r.Intn(4) {
+		case 0:
+			st = append(st, fmt.Sprintf("margin-%s:%dpx", side, amount()))
+		case 1:
+			st = append(st, fmt.Sprintf("border-%s:%dpx solid", side, amount()))
+		case 2:
+			st = append(st, fmt.Sprintf("padding-%s:%dpx", side, amount()))
+		default:
+			st = append(st, fmt.Sprintf("border-%s:%dpx solid;margin-%s:%dpx", side, amount()/2+1, side, amount()/2+1))
+		}
+	}
+	return strings.Join(st, ";")
 }
 
 // visibility for a box: mostly hidden on the way down, set back to visible below
@@ -229,6 +279,9 @@ func (g *tgen) items(mode, depth int, inflow bool) []*TItem {
 		if g.pagec && (k == 16 || k == 17) {
 			k = 0
 		}
+		if g.edges && k < 10 && depth < 3 && r.Chance(1, 3) {
+			k = 10 // more inline boxes
+		}
 		switch {
 		case k < 10 || depth >= 3:
 			out = append(out, &TItem{Kind: TText, Mode: mode, Text: g.text()})
@@ -245,6 +298,7 @@ func (g *tgen) items(mode, depth int, inflow bool) []*TItem {
 				it.Rel = true
 				g.tags["relative"] = true
 			}
+			it.Edge = g.spanEdge()
 			it.Kids = g.items(m, depth+1, inflow)
 			out = append(out, it)
 			g.tags["span"] = true
@@ -398,6 +452,54 @@ func (g *tgen) oofNode() *TNode {
 	return &TNode{Kind: NOof, Para: p}
 }
 
+// a container with break-inside: avoid that holds a block-level float (or absolutely
+// positioned box) of several lines followed by in-flow blocks: when the page ends inside it
+// (and it is not the first box of the page) the container is moved to the next page as a
+// whole, together with the out-of-flow box that was broken by the same page end
+func (g *tgen) avoidOofNode(depth int) *TNode {
+	r := g.r
+	n := &TNode{Kind: NDiv, Style: "break-inside:avoid"}
+	if r.Chance(1, 4) {
+		n.Style = joinStyle(n.Style, fmt.Sprintf("margin:%dpx 0 %dpx 0", r.Range(0, 2)*5, r.Range(0, 2)*5))
+	}
+	if r.Chance(1, 3) {
+		n.Kids = append(n.Kids, g.shortPara())
+	}
+	kind, style := "in-float", "float:"+vlib.Pick(r, []string{"left", "right"})+";width:"+vlib.Pick(r, []string{"40%", "60px", "40px", "50%"})
+	if r.Chance(1, 5) {
+		kind, style = "in-abspos", "position:absolute;"+vlib.Pick(r, []string{"", "right:0", "left:0"})+";width:"+vlib.Pick(r, []string{"40%", "60px"})
+		g.tags["abspos"] = true
+	} else {
+		g.tags["float"] = true
+	}
+	g.ctx = append(g.ctx, kind)
+	p := &TPara{ID: len(g.d.Paras), Mode: 0, Tag: "div", Ctx: append([]string{}, g.ctx...)}
+	g.d.Paras = append(g.d.Paras, p)
+	var sb strings.Builder
+	for i, m := 0, r.Range(3, 9); i < m; i++ {
+		if i > 0 {
+			sb.WriteString(" ")
+		}
+		sb.WriteString(g.word())
+	}
+	p.Items = []*TItem{{Kind: TText, Mode: 0, Text: sb.String()}}
+	p.Style = joinStyle("white-space:normal", style)
+	g.ctx = g.ctx[:len(g.ctx)-1]
+	n.Kids = append(n.Kids, &TNode{Kind: NOof, Para: p})
+	for i, m := 0, r.Range(1, 3); i < m; i++ {
+		if r.Chance(1, 2) {
+			n.Kids = append(n.Kids, g.shortPara())
+		} else {
+			q := g.newPara(g.d.BodyMode, true, 1)
+			q.Tag = "div"
+			n.Kids = append(n.Kids, &TNode{Kind: NPara, Para: q})
+		}
+	}
+	g.tags["oof-block"] = true
+	g.tags["avoid-with-oof"] = true
+	return n
+}
+
 // a one-line block
 func (g *tgen) shortPara() *TNode {
 	p := &TPara{ID: len(g.d.Paras), Mode: g.d.BodyMode, InFlow: true, Tag: "div"}
@@ -410,6 +512,9 @@ func (g *tgen) shortPara() *TNode {
 
 func (g *tgen) node(depth int) *TNode {
 	r := g.r
+	if g.oof != 0 && depth <= 1 && r.Chance(1, 3*g.oof) {
+		return g.avoidOofNode(depth)
+	}
 	if g.oof != 0 && r.Chance(1, g.oof) {
 		return g.oofNode()
 	}
@@ -552,6 +657,11 @@ func GenerateText(r *vlib.Rng) *TextDoc {
 		}
 	}
 	if r.Chance(1, 5) {
+		// inline boxes with wide horizontal edges: many spans of a few short words
+		g.edges = true
+		g.tags["profile-edges"] = true
+	}
+	if r.Chance(1, 5) {
 		// generated text that depends on counter(pages): the layout is repeated until the
 		// page count is stable, pages whose content did not change are reused
 		g.pagec = true
@@ -597,6 +707,9 @@ func itemsHTML(sb *strings.Builder, items []*TItem) {
 			}
 			if it.Rel {
 				st = append(st, "position:relative;top:2px")
+			}
+			if it.Edge != "" {
+				st = append(st, it.Edge)
 			}
 			fmt.Fprintf(sb, `<span style="%s">`, strings.Join(st, ";"))
 			itemsHTML(sb, it.Kids)
@@ -775,12 +888,20 @@ func (d *TextDoc) Index() {
 		}
 		p.Anc = append([]int{}, anc...)
 		p.Role = role
-		p.Block = false
+		p.Block, p.AvoidParent, p.AvoidAnc = false, false, false
 		byID[p.ID] = p
 		items(p.Items, append(append([]int{}, anc...), p.ID))
 	}
-	var node func(n *TNode)
-	node = func(n *TNode) {
+	hasAvoid := func(n *TNode) bool {
+		for _, d := range strings.Split(n.Style, ";") {
+			if kv := strings.SplitN(d, ":", 2); len(kv) == 2 && strings.TrimSpace(kv[0]) == "break-inside" && strings.HasPrefix(strings.TrimSpace(kv[1]), "avoid") {
+				return true
+			}
+		}
+		return false
+	}
+	var node func(n *TNode, parentAvoid, ancAvoid bool)
+	node = func(n *TNode, parentAvoid, ancAvoid bool) {
 		switch n.Kind {
 		case NPara:
 			role := "root"
@@ -795,9 +916,10 @@ func (d *TextDoc) Index() {
 			}
 			para(n.Para, nil, role)
 			n.Para.Block = true
+			n.Para.AvoidParent, n.Para.AvoidAnc = parentAvoid, ancAvoid
 		case NDiv, NList:
 			for _, k := range n.Kids {
-				node(k)
+				node(k, hasAvoid(n), parentAvoid || ancAvoid)
 			}
 		case NTable:
 			for _, c := range n.Head {
@@ -814,7 +936,7 @@ func (d *TextDoc) Index() {
 		}
 	}
 	for _, n := range d.Nodes {
-		node(n)
+		node(n, false, false)
 	}
 	// the list by id points into the tree (a document read from JSON has copies there)
 	for i, p := range d.Paras {
